@@ -80,7 +80,10 @@ JoinPath(cs) == IF Len(cs) = 0 THEN <<>> ELSE IF Len(cs) = 1 THEN CompChars(cs[1
                 ELSE CompChars(cs[1]) \o <<"/">> \o JoinPath(Tail(cs))
 
 DirPrefixes == UNION {[1..m -> {"a", "b"}] : m \in 0..2}
-Paths    == {pre \o <<last>> : pre \in DirPrefixes, last \in {"a", "b", "ab", "as"}}
+\* + paths with a component "ab" *between* literal components (x/ab/y and a/x/ab/y): they tell `**/x/y` (x and y adjacent)
+\*   from `**/x/**/y`; the inserted component matches neither x nor y, and its directory is not matched by `**/x/y`
+GapPaths == {<<x, "ab", y>> : x \in {"a", "b"}, y \in {"a", "b"}} \cup {<<"a", x, "ab", y>> : x \in {"a", "b"}, y \in {"a", "b"}}
+Paths    == {pre \o <<last>> : pre \in DirPrefixes, last \in {"a", "b", "ab", "as"}} \cup GapPaths
 Queries  == {[p |-> pa, d |-> dd] : pa \in Paths, dd \in BOOLEAN}
 QSeq     == SetToSortSeq(Queries, LAMBDA x, y : TRUE)      \* fixed enumeration, emitted with the table
 QIdx     == 1..Len(QSeq)
@@ -111,12 +114,20 @@ Ambiguous(line) ==
              /\ (k > Len(p) \/ p[k] = "/" \/ (p[k] = "bs" /\ k + 1 <= Len(p) /\ p[k+1] = "/"))
 Lines1 == {l \in LinesOver(Alpha, N) : ~Ambiguous(l)}
 Lines2 == {l \in LinesOver(PairAlpha, M) : ~Ambiguous(l)}
-AllLines == Lines1 \cup Lines2
+\* D3: a "**" followed by two literal segments -- leading (**/x/y), anchored (/**/x/y) and in the middle (a/**/x/y),
+\* optionally directory-only; alone in the root / in a/, and negated after an excluding line
+StarLines == {pre \o <<"**", "/", x, "/", y>> \o suf : pre \in {<<>>, <<"/">>, <<"a", "/">>}, x \in {"a", "b"}, y \in {"a", "b"},
+                                                       suf \in {<<>>, <<"/">>}}
+StarFirst == {<<"*">>, <<"b">>}
+AllLines == Lines1 \cup Lines2 \cup StarLines \cup {<<"!">> \o l : l \in StarLines} \cup StarFirst
 Sets == {[x |-> <<>>, r |-> <<l>>, n |-> <<>>] : l \in Lines1} \cup
         {[x |-> <<>>, r |-> <<>>, n |-> <<l>>] : l \in Lines1} \cup
         {[x |-> <<>>, r |-> <<l1, l2>>, n |-> <<>>] : l1 \in Lines2, l2 \in Lines2} \cup
         {[x |-> <<>>, r |-> <<l1>>, n |-> <<l2>>] : l1 \in Lines2, l2 \in Lines2} \cup
-        {[x |-> <<l1>>, r |-> <<l2>>, n |-> <<>>] : l1 \in Lines2, l2 \in Lines2}
+        {[x |-> <<l1>>, r |-> <<l2>>, n |-> <<>>] : l1 \in Lines2, l2 \in Lines2} \cup
+        {[x |-> <<>>, r |-> <<l>>, n |-> <<>>] : l \in StarLines} \cup
+        {[x |-> <<>>, r |-> <<>>, n |-> <<l>>] : l \in StarLines} \cup
+        {[x |-> <<>>, r |-> <<f, <<"!">> \o l>>, n |-> <<>>] : f \in StarFirst, l \in StarLines}
 
 \* memo tables (constant definitions are evaluated once by TLC)
 ParseTab == [l \in AllLines |-> Parse(l)]
@@ -141,7 +152,7 @@ LM(set, qi, nested) ==
 UnderA(pa) == Len(pa) >= 2 /\ pa[1] = "a"
 
 \* index of the k-th leading directory of query i (as a directory query)
-ParIdx == [i \in QIdx |-> [k \in 1..2 |-> IF k < Len(QSeq[i].p) THEN IdxOf(SubSeq(QSeq[i].p, 1, k), TRUE) ELSE 0]]
+ParIdx == [i \in QIdx |-> [k \in 1..3 |-> IF k < Len(QSeq[i].p) THEN IdxOf(SubSeq(QSeq[i].p, 1, k), TRUE) ELSE 0]]
 
 RECURSIVE Walk(_, _, _)
 Walk(set, qi, k) ==       \* k-th leading directory of the query (prep_exclude), then the query itself
